@@ -27,6 +27,8 @@ def run(ctx):
     ctx.tlc("MC_NameTable", "MC_NameTable_" + t, replay="scope", coverage=False)
     # two references spelled alike, written in two different modules: each is bound from its own scope
     ctx.tlc("MC_TwoRefs", "MC_TwoRefs", replay="scope", coverage=False)
+    # base lists and underlying types written with a keyword, an anonymous type or a name of the wrong kind
+    ctx.tlc("MC_WrongKind", "MC_WrongKind", replay="scope", coverage=False)
     ctx.tlc("MC_AliasChain", "MC_AliasChain_" + t, replay="aliaschain", coverage=False)
     n = 360 if ctx.quick else 6000
     ctx.tlc("MC_Syntax", "MC_Syntax_sim", replay="syntax-find", simulate={"num": n, "depth": 500, "procs": 12, "seed_offset": 60},
